@@ -108,3 +108,24 @@ OBS.append(Ob(['C10', 'C16', 'C03'], 'spaces_linecomment_n5', 'jd_cm', 'harness/
     desc='skipSpacesAndComments with comments enabled, input opening a line comment: it ends at the first newline only; end of input inside => IncompleteInput', bound='"//" + all continuations of 3 bytes'))
 # (a symbolic byte right after the slash - block comment, line comment or InvalidInput - makes CBMC's accounting of the scanner's
 #  merged loops report a too-small unwinding bound at every bound tried (9, 14, 22): not registered; the comment openers are concrete)
+
+# ---- NaN / Infinity configuration (ARDUINOJSON_ENABLE_NAN=1, ARDUINOJSON_ENABLE_INFINITY=1): the number character class widens to letters
+UNITS += [Unit('jd_nan', 'wrappers/jd.cpp', defs=SM + ['ARDUINOJSON_ENABLE_NAN=1', 'ARDUINOJSON_ENABLE_INFINITY=1'])]
+UN = ['UNIT_H="jd_nan.h"', 'NANINF=1']
+OBS += [
+ Ob(['C10'], 'charclasses_naninf', 'jd_nan', 'harness/jd_leaf.c', 'h_charclasses', defs=UN, unwind=3, desc='canBeInNumber / canBeInNonQuotedString / isQuote in the NaN+Infinity build: number characters are digits + - . and ASCII letters, nothing else', bound='all 256 characters', **L),
+ Ob(['C10', 'C16', 'C03'], 'skipnum_naninf', 'jd_nan', 'harness/jd_leaf.c', 'h_skipnum', defs=UN + ['NB=5'], unwind=8, desc='skipNumericValue in the NaN+Infinity build: maximal run of number characters (letters included) + at most one look-ahead byte', bound='all 5-byte inputs', **L),
+ Ob(['C10', 'C16', 'C03'], 'keyword_naninf', 'jd_nan', 'harness/jd_leaf.c', 'h_keyword', defs=UN + ['NB=6'], unwind=8, desc='skipKeyword(true/false/null) in the NaN+Infinity build: exact match, no look-ahead', bound='all inputs of <= 6 bytes x 3 keywords', **L),
+]
+
+# ---- ARDUINOJSON_DECODE_UNICODE=0: \\u escapes are not decoded, they are kept verbatim; everything else unchanged
+UNITS += [Unit('jd_nou', 'wrappers/jd.cpp', defs=SM + ['ARDUINOJSON_DECODE_UNICODE=0'])]
+UNOU = ['UNIT_H="jd_nou.h"', 'NODECODE=1']
+OBS += [
+ Ob(['C17', 'C10', 'C03'], 'pqs_n3_nounicode', 'jd_nou', 'harness/jd_str.c', 'h_pqs', defs=UNOU + ['NB=3'], unwind=12, fs='none', cap=300, hunwind=24,
+    desc='parseQuotedString in the DECODE_UNICODE=0 build == reference unescaper that keeps \\u verbatim (code, consumed bytes, bytes, NUL termination)', bound='either quote + all 2^24 strings of 3 following bytes'),
+ Ob(['C17', 'C10'], 'pqs_u6_nounicode', 'jd_nou', 'harness/jd_str.c', 'h_pqs', defs=UNOU + ['NB=7', 'PREFIX_U=1'], unwind=12, fs='none', cap=300, hunwind=36,
+    desc='parseQuotedString in the DECODE_UNICODE=0 build on quote + \\u + 5 free bytes: the escape and the following bytes are stored verbatim, no hex validation', bound='all 2^40 continuations of "\\u'),
+ Ob(['C03', 'C10', 'C16'], 'sqs_n5_nounicode', 'jd_nou', 'harness/jd_str.c', 'h_sqs', defs=UNOU + ['NB=5'], unwind=9, fs='none', cap=300, hunwind=24,
+    desc='skipQuotedString in the DECODE_UNICODE=0 build agrees with the parser on accepted strings', bound='either quote + all strings of 5 bytes'),
+]
